@@ -11,4 +11,8 @@ t._parse_all()
 snap = canon.snapshot(t._asts)
 with gzip.GzipFile(canon.REFERENCE, "wb", mtime=0) as fh:
     fh.write(json.dumps(snap, sort_keys=True, separators=(",", ":")).encode())
+src = canon.snapshot_sources(t._asts)
+with gzip.GzipFile(canon.REFERENCE_SRC, "wb", mtime=0) as fh:
+    fh.write(json.dumps(src, sort_keys=True, separators=(",", ":")).encode())
+print("sources:", sum(len(v) for v in src.values()), "bytes:", os.path.getsize(canon.REFERENCE_SRC))
 print("units:", sum(len(v) for v in snap.values()), "files:", len(snap), "bytes:", os.path.getsize(canon.REFERENCE))
